@@ -167,7 +167,8 @@ theorem run_lit (ρ : List FunDef) : ∀ (f : Nat) (j : Job) (s : St), Lit n o0 
         · exact h.alloc _ _ _
       | assignDecl x e =>
         simp only [run]
-        refine bnd_lit _ _ (ih _ _ h trivial) (fun l t ht => ?_)
+        refine withFnCall_lit _ _ h (fun s0 hs0 => ?_)
+        refine bnd_lit _ _ (ih _ _ hs0 trivial) (fun l t ht => ?_)
         have htag := tag_lit ht e l
         have hc := htag.clone l
         generalize hcl : cloneIfNecessary (tagParamAlias e t l) l = rc at hc ⊢
